@@ -91,9 +91,11 @@ type Act struct {
 	phiOver map[*ssa.Phi]Val
 	entry   *State
 	lets    map[string]TV
-	names   map[string]ssa.Value // source names -> value (via DebugRef/Alloc comments)
+	names   map[string]nameRef // source names -> value (via DebugRef/Alloc comments)
 	curBlock *ssa.BasicBlock
 	mayPanic map[string]bool
+	loopFrameOf map[*ssa.BasicBlock]*loopFrame
+	baseFrames  []loopFrame
 }
 
 type VC struct {
@@ -114,6 +116,8 @@ type VC struct {
 	declared map[string]bool
 	ptrFacts []ptrFact
 	finalized bool
+	loopFrames []loopFrame
+	memInfo    map[string]memStore
 }
 
 type ptrFact struct {
@@ -162,14 +166,34 @@ func (vc *VC) finalize() {
 		var cs []string
 		for _, id := range ids {
 			t := vc.eng.typeByID[id]
-			if !vc.eng.wholeObjectType(t) {
+			if types.IsInterface(t) {
+				continue
+			}
+			if sl, ok := t.(*types.Slice); ok {
+				// array objects are registered under their slice type
+				var offs []int
+				func() {
+					defer func() { recover() }()
+					offsetsOf(sl.Elem(), pf.elem, 0, &offs)
+				}()
+				if len(offs) == 0 {
+					cs = append(cs, fmt.Sprintf("(not (= (typ %s) %d))", pf.ref, id))
+				}
 				continue
 			}
 			var offs []int
+			bad := false
 			func() {
-				defer func() { recover() }()
+				defer func() {
+					if recover() != nil {
+						bad = true
+					}
+				}()
 				offsetsOf(t, pf.elem, 0, &offs)
 			}()
+			if bad {
+				continue
+			}
 			var alts []string
 			for _, o := range offs {
 				alts = append(alts, eq(pf.idx, fmt.Sprint(o)))
@@ -277,15 +301,74 @@ func (vc *VC) load(st *State, p PtrV, t types.Type) Val {
 	return v
 }
 
+type memStore struct {
+	parent, ref, idx, val string
+}
+
+func (vc *VC) store1(prefix, mem, ref, idx, val string) string {
+	n := vc.def(prefix, memSort, fmt.Sprintf("(store %s %s (store (select %s %s) %s %s))", mem, ref, mem, ref, idx, val))
+	if vc.memInfo == nil {
+		vc.memInfo = map[string]memStore{}
+	}
+	vc.memInfo[n] = memStore{mem, ref, idx, val}
+	return n
+}
+
 func (vc *VC) writeLeaves(st *State, ref, idx string, t types.Type, leaves []string) {
 	lay := layout(t)
 	for k, kind := range lay {
 		if kind == 'r' {
-			st.mr = vc.def("MR", memSort, fmt.Sprintf("(store %s %s (store (select %s %s) %s %s))", st.mr, ref, st.mr, ref, add(idx, k), leaves[k]))
+			st.mr = vc.store1("MR", st.mr, ref, add(idx, k), leaves[k])
 		} else {
-			st.mi = vc.def("MI", memSort, fmt.Sprintf("(store %s %s (store (select %s %s) %s %s))", st.mi, ref, st.mi, ref, add(idx, k), leaves[k]))
+			st.mi = vc.store1("MI", st.mi, ref, add(idx, k), leaves[k])
 		}
 	}
+}
+
+// mergeMem joins two memories. When both derive from a common ancestor by short chains of
+// single-cell stores the join is a chain of guarded stores (no array-valued ite).
+func (vc *VC) mergeMem(prefix, ga, a, gb, b string) string {
+	if a == b {
+		return a
+	}
+	const maxChain = 48
+	chain := func(m string) []string {
+		out := []string{m}
+		for len(out) <= maxChain {
+			s, ok := vc.memInfo[out[len(out)-1]]
+			if !ok {
+				break
+			}
+			out = append(out, s.parent)
+		}
+		return out
+	}
+	ca, cb := chain(a), chain(b)
+	posB := map[string]int{}
+	for i, m := range cb {
+		posB[m] = i
+	}
+	ia, ib := -1, -1
+	for i, m := range ca {
+		if j, ok := posB[m]; ok {
+			ia, ib = i, j
+			break
+		}
+	}
+	if ia < 0 || ia+ib > maxChain {
+		return vc.def(prefix, memSort, ite(ga, a, b))
+	}
+	cur := ca[ia]
+	apply := func(g string, ch []string, n int) {
+		for k := n - 1; k >= 0; k-- {
+			s := vc.memInfo[ch[k]]
+			old := fmt.Sprintf("(select (select %s %s) %s)", cur, s.ref, s.idx)
+			cur = vc.store1(prefix, cur, s.ref, s.idx, ite(g, s.val, old))
+		}
+	}
+	apply(ga, ca, ia)
+	apply(gb, cb, ib)
+	return cur
 }
 
 func (vc *VC) store(st *State, p PtrV, t types.Type, v Val, what string, pos token.Pos) {
@@ -295,8 +378,17 @@ func (vc *VC) store(st *State, p PtrV, t types.Type, v Val, what string, pos tok
 }
 
 // frameCheck emits the K3 obligation: the written cells are fresh or inside the declared frame.
+type loopFrame struct {
+	items []frameItem
+	top   string
+	name  string
+	tags  []string
+}
+
+func (vc *VC) frameActive() bool { return vc.frameOn || len(vc.loopFrames) > 0 }
+
 func (vc *VC) frameCheck(st *State, ref, lo, hi, kind, what string, pos token.Pos) {
-	if !vc.frameOn {
+	if !vc.frameActive() {
 		return
 	}
 	if st.kept[ref] {
@@ -333,9 +425,9 @@ func (vc *VC) frameText() string {
 	return strings.Join(t, ", ")
 }
 
-func (vc *VC) inFrame(ref, lo, hi string) string {
-	alts := []string{fmt.Sprintf("(>= %s alloc0)", ref)}
-	for _, it := range vc.frame {
+func itemsCover(items []frameItem, base, ref, lo, hi string) string {
+	alts := []string{fmt.Sprintf("(>= %s %s)", ref, base)}
+	for _, it := range items {
 		switch it.kind {
 		case "everything":
 			return "true"
@@ -349,6 +441,19 @@ func (vc *VC) inFrame(ref, lo, hi string) string {
 		}
 	}
 	return or(alts...)
+}
+
+// inFrame: the cells are fresh or inside the function's frame, and likewise for every enclosing
+// loop that carries a `loop ... modifies` annotation (fresh = allocated since that loop was entered).
+func (vc *VC) inFrame(ref, lo, hi string) string {
+	var cs []string
+	if vc.frameOn {
+		cs = append(cs, itemsCover(vc.frame, "alloc0", ref, lo, hi))
+	}
+	for _, lf := range vc.loopFrames {
+		cs = append(cs, itemsCover(lf.items, lf.top, ref, lo, hi))
+	}
+	return and(cs...)
 }
 
 func (vc *VC) tid(t types.Type) int { return vc.eng.tid(t) }
@@ -577,8 +682,13 @@ func (vc *VC) mergeStates(sts []*State) *State {
 		}
 		return vc.def(prefix, sort, t)
 	}
-	out.mi = pick(func(s *State) string { return s.mi }, memSort, "MI")
-	out.mr = pick(func(s *State) string { return s.mr }, memSort, "MR")
+	out.mi, out.mr = live[0].mi, live[0].mr
+	accG := live[0].guard
+	for i := 1; i < len(live); i++ {
+		out.mi = vc.mergeMem("MI", accG, out.mi, live[i].guard, live[i].mi)
+		out.mr = vc.mergeMem("MR", accG, out.mr, live[i].guard, live[i].mr)
+		accG = or(accG, live[i].guard)
+	}
 	out.top = pick(func(s *State) string { return s.top }, "Int", "top")
 	keys := map[string]bool{}
 	for _, s := range live {
